@@ -332,7 +332,7 @@ example :
   refine ⟨by decide +kernel, by decide +kernel, by decide +kernel, by decide +kernel, by decide +kernel, by decide +kernel⟩
 
 /-- **`close()` in the composed model closes EVERY broker-client component** (the part of the open statement
-    `C20_composed_close_closes_every_broker_client` that holds; the excluded situation is explicit: `NoFuelC` - no
+    `C20_composed_close_closes_every_broker_client` that holds; the excluded situation is explicit: `NoFuelRun` - no
     composed step of the history showed the client layer's `badOp "fuel"`.  Without it the statement is false of the
     fuel-bounded interpreter: a refresh whose callback chain is cut after the instances were popped from `self.clients`
     and before their `closeBc` ran leaves instances nobody will ever close; a witness needs > 100000 actions in one step).
@@ -347,7 +347,7 @@ example :
     new components / `close` events, in order (`step_tb`, `route_tbl`), and a closed component stays closed
     (`C10_closed_quiet`). -/
 theorem C20_composed_close_closes_every_broker_client_partial (cfg : Afkak.ClientCompose.Cfg) (evs : List Afkak.ClientCompose.Ev)
-    (hnf : Afkak.ClientCompose.NoFuelC cfg {} evs) (env : Env) (o : Nat) :
+    (hnf : Afkak.ClientCompose.NoFuelRun cfg {} evs) (env : Env) (o : Nat) :
     let s := Afkak.ClientCompose.run cfg {} evs
     Ob.badOp "fuel" ∉ (step cfg.cl s.cl env (.close o)).2 →
     ∀ x ∈ (Afkak.ClientCompose.step cfg s (.api env (.close o))).1.bcs, x.closed = true := by
@@ -372,12 +372,10 @@ example :
       [.api { shuffles := [[], [0]] } (.load 0 []), .api {} (.bootOk 0),
        .api {} (.bootReply 0 (.metadata [⟨1, "h1", 9092⟩] [⟨"t", 0, [⟨0, 0, 1⟩]⟩])),
        .api {} (.send 1 [("t", 0)] none true true), .connOk 0 []]
-    Afkak.ClientCompose.NoFuelC cfg {} evs ∧
+    Afkak.ClientCompose.NoFuelRun cfg {} evs ∧
     (Afkak.ClientCompose.run cfg {} evs).bcs.map (·.closed) = [false] ∧
     Ob.badOp "fuel" ∉ (step cfg.cl (Afkak.ClientCompose.run cfg {} evs).cl {} (.close 2)).2 := by
-  refine ⟨?_, by decide +kernel, by decide +kernel⟩
-  simp only [Afkak.ClientCompose.NoFuelC, and_true]
-  refine ⟨by decide +kernel, by decide +kernel, by decide +kernel, by decide +kernel, by decide +kernel⟩
+  refine ⟨by decide +kernel, by decide +kernel, by decide +kernel⟩
 
 end Afkak.Props.C20
 
